@@ -665,7 +665,56 @@ var ribRefSpecs = []fnSpec{
 	},
 }
 
+// the five table-level adds share one shape
+func tableAddSpec(goName, lean, eType, eSchema, exists, retrieve, doAdd, origType string, kindNo string) fnSpec {
+	return fnSpec{
+		file: "rib/rib.go", goName: goName, recvType: "*RIBHolder", callAs: "niR." + goName + "§", leanName: lean, joins: true,
+		params: []param{
+			{goName: "e", goType: eType, lean: "e", kd: kPtr(eSchema)},
+			{goName: "explicitReplace", goType: "bool", lean: "explicitReplace", kd: kBool},
+		},
+		goRets: "bool, " + origType + ", error", rets: []string{"bool", "ptr:Unit", "err"},
+		oracleParams: []param{
+			{goName: "§rr", lean: "rr", kd: kPtr("Unit")},
+			{goName: "§nr", lean: "nr", kd: kPtr("NewRIB")},
+			{goName: "§candErr", lean: "candErr", kd: kind{k: "statusval"}},
+			{goName: "§exists", lean: "exists_", kd: kBool},
+			{goName: "§installed", lean: "installed", kd: kPtr("Unit")},
+			{goName: "§checkFn", lean: "checkFn", kd: kPtr("Unit")},
+			{goName: "§checkOk", lean: "checkOk", kd: kBool},
+			{goName: "§checkErr", lean: "checkErr", kd: kind{k: "status"}},
+			{goName: "§doErr", lean: "doErr", kd: kind{k: "status"}},
+			{goName: "§hook", lean: "hook", kd: kPtr("Unit")},
+			{goName: "§name", lean: "name", kd: kStr},
+			{goName: "§implicit", lean: "implicit", kd: kBool},
+			{goName: "§now", lean: "now", kd: kInt},
+		},
+		oracles: map[string]oracle{
+			"candidateRIB":      {results: []string{"§nr", "§candErr"}, errOf: true},
+			"r." + exists:       {results: []string{"§exists"}},
+			"r." + retrieve:     {results: []string{"§installed"}},
+			"r.checkFn":         {results: []string{"§checkOk", "§checkErr"}},
+			"r." + doAdd:        {results: []string{"§implicit", "§doErr"}, effect: "tableAdd:" + kindNo, args: []int{1}},
+			"r.postChangeHook":  {results: []string{}, effect: "postHook", args: []int{0, 2, 3}},
+			"unixTS":            {results: []string{"§now"}},
+		},
+		subst:     map[string]string{"r.r": "§rr", "r.checkFn": "§checkFn", "r.postChangeHook": "§hook", "r.name": "§name"},
+		effects:   true,
+		typeMap:   map[string]string{"installed": "Unit"},
+		extConsts: map[string]string{"constants.Add": "1"},
+	}
+}
+
+var ribTableSpecs = []fnSpec{
+	tableAddSpec("AddIPv4", "addIPv4", "*aftpb.Afts_Ipv4EntryKey", "IPv4EntryC", "ipv4Exists", "retrieveIPv4", "doAddIPv4", "*aft.Afts_Ipv4Entry", "4"),
+	tableAddSpec("AddIPv6", "addIPv6", "*aftpb.Afts_Ipv6EntryKey", "IPv6EntryC", "ipv6Exists", "retrieveIPv6", "doAddIPv6", "*aft.Afts_Ipv6Entry", "6"),
+	tableAddSpec("AddMPLS", "addMPLS", "*aftpb.Afts_LabelEntryKey", "LabelEntryC", "mplsExists", "retrieveMPLS", "doAddMPLS", "*aft.Afts_LabelEntry", "1"),
+	tableAddSpec("AddNextHopGroup", "addNextHopGroup", "*aftpb.Afts_NextHopGroupKey", "NHGEntryC", "nhgExists", "retrieveNHG", "doAddNHG", "*aft.Afts_NextHopGroup", "2"),
+	tableAddSpec("AddNextHop", "addNextHop", "*aftpb.Afts_NextHopKey", "NHEntryC", "nhExists", "retrieveNH", "doAddNH", "*aft.Afts_NextHop", "3"),
+}
+
 func init() {
+	specs = append(specs, ribTableSpecs...)
 	specs = append(specs, ribRefSpecs...)
 	specs = append(specs, ribDelSpec)
 	specs = append(specs, clientSpecs...)
